@@ -188,6 +188,35 @@ def static_force_twin(doc, log):
     if d > 1e-9 * sc:
         raise Violation(PROP, "condensed-vs-explicit", f"nodal forces of the settled condensed body differ from the u-block of the explicit (u, p, J) residual at the same displacements, cell pressures and volume ratios by {d:.3e} (scale {sc:.3e}, bulk {doc['items'][0]['bulk']})", site="SolidBodyNearlyIncompressible.vector-vs-explicit")
     log.count("static-force-twin-compared")
+    # the explicit formulation at another state, tangent first: the field values are changed in place
+    # (same containers, same value arrays) and the matrix is requested without the forces - it is the
+    # matrix of a newly created model brought to that state by vector(field) and matrix()
+    u2 = u + (pts - pts.min(0)) @ (0.1 * rng.uniform(-1, 1, (dim, dim))).T
+    if fk == "Axi":
+        u2[np.abs(pts[:, 1]) < 1e-12 * span, 1] = 0.0
+    if doc["c10"]["probe_seed"] % 2:
+        # (the other explicit three-field formulation of the library: same protocol)
+        d2 = copy.deepcopy(d2)
+        d2["items"][0]["umat"]["name"] = "ThreeField"
+        wb = world.World(copy.deepcopy(d2))
+        wb.field[0].values[...] = u
+        wb.field[1].values[...] = p_.reshape(-1, 1)
+        wb.field[2].values[...] = J_.reshape(-1, 1)
+        wb.items[0].assemble.vector(wb.field)
+        wb.items[0].assemble.matrix()
+    wb.field[0].values[...] = u2
+    K_first = wb.items[0].assemble.matrix(wb.field).toarray()
+    wc = world.World(copy.deepcopy(d2))
+    wc.field[0].values[...] = u2
+    wc.field[1].values[...] = p_.reshape(-1, 1)
+    wc.field[2].values[...] = J_.reshape(-1, 1)
+    wc.items[0].assemble.vector(wc.field)
+    K_cold = wc.items[0].assemble.matrix().toarray()
+    if np.all(np.isfinite(K_cold)) and np.all(np.isfinite(K_first)):
+        ok, rel = close_exact_twin(K_first, K_cold, rtol=1e-9, atol=1e-10 * float(np.abs(K_cold).max()))
+        if not ok:
+            raise Violation(PROP, "condensed-vs-explicit", f"explicit (u, p, J) body: matrix(field) requested first at a state written in place into the same value arrays differs from vector(field) + matrix() of a newly created model at that state (rel {rel:.2e})", site="ThreeField.matrix-first")
+        log.count("explicit-matrix-first-compared")
 
 
 def run_condensed(doc, log):
